@@ -664,4 +664,6 @@ UNITS = [U_NF, U_PSEL, U_DV, U_P56, U_MASK, U_ASM]
 # compute_near_field keeps nothing between calls: its result is a function of (model, frequency, request) -- the frame
 # clause is stated and checked with C14 (assigns: the function writes only e_field, h_field, near_field_coord, nf_param,
 # nf_power); without it the clause above would only hold for the first request on an object
-EXTRA_UNITS = [('contracts.C14', 'U_ASSIGNS')]
+# the power that scales both fields is the net input power of the CURRENT solution (Mininec.compute: units of C07) and no
+# state outlives a request (inventory and assigns clauses of C14)
+EXTRA_UNITS = [('contracts.C14', 'U_ASSIGNS'), ('contracts.C14', 'U_INV'), ('contracts.C07', 'U_COMPUTE'), ('contracts.C07', 'U_POWER2')]
